@@ -23,6 +23,8 @@ from .codec import enc, dec, show
 VERIF = os.path.dirname(os.path.dirname(os.path.abspath(__file__)))
 MAX_GROUPS_PER_ITEM = 64
 MAX_REPORTED = 12
+# checks whose deepest built space is cheap enough (< ~30 s) to be run on every change
+QUICK_USES_THOROUGH_SPACE = {'C03', 'C04', 'C06', 'C12'}
 
 
 class Acc(object):
@@ -179,6 +181,9 @@ def run_check(prop, tier, seed, jobs=None):
     import petl  # noqa: F401  (import before fork so that workers share it)
     mod = importlib.import_module(modname)
     env.scratch_root()
+    report_tier = tier
+    if prop in QUICK_USES_THOROUGH_SPACE:
+        tier = 'thorough'       # the space enumerated; the evidence still says which tier was asked for
     if hasattr(mod, 'setup'):
         mod.setup(tier, seed)
     items = list(mod.items(tier, seed))
@@ -284,7 +289,8 @@ def run_check(prop, tier, seed, jobs=None):
     if len(outcomes) <= 1 and tot['evals'] > 1:
         problems = list(problems) + ['only one distinct outcome observed']
         cov['vacuity_problems'] = problems
-    ev = {'property_id': prop, 'tier': tier, 'seed': seed, 'level': level, 'coverage': cov,
+    cov['space_enumerated'] = tier + ' space'
+    ev = {'property_id': prop, 'tier': report_tier, 'seed': seed, 'level': level, 'coverage': cov,
           'assumptions': list(getattr(mod, 'ASSUMPTIONS', [])), 'wall_s': round(wall, 2),
           'violations': len(reported)}
     evdir = os.environ.get('MC_EVIDENCE_DIR') or os.path.join(VERIF, 'evidence')
@@ -294,9 +300,9 @@ def run_check(prop, tier, seed, jobs=None):
         json.dump(ev, f, indent=1, sort_keys=True)
     err = validate_evidence(evpath)
 
-    print('%s tier=%s seed=%d items=%d evaluations=%d nontrivial=%d states=%d transitions=%d '
+    print('%s tier=%s%s seed=%d items=%d evaluations=%d nontrivial=%d states=%d transitions=%d '
           'outcomes=%d abstract=%d violations=%d known=%d wall=%.1fs'
-          % (prop, tier, seed, len(items), tot['evals'], tot['nontrivial'], tot['states'],
+          % (prop, report_tier, '' if report_tier == tier else ' (thorough space)', seed, len(items), tot['evals'], tot['nontrivial'], tot['states'],
              tot['transitions'], len(outcomes), len(abstract), len(reported),
              cov['known_finding_groups'], wall))
     if err:
